@@ -147,7 +147,7 @@ ExpectedAuxV(kind, ds, variant) ==
       [] kind = "q-null" -> LET ks == KeySeq({k \in Keys : HasBody(ds[k])}) IN
                             IF ks = <<>> THEN <<>>
                             ELSE [i \in 1..Len(ks) |-> [id |-> ks[i], body |-> NoBody, xa |-> NoXa, vals |-> <<ds[ks[i]].xa["_s"].t>>]]
-      [] kind \in {"view", "viewfresh", "viewlate", "viewpost"} -> ViewSeq(ds)
+      [] kind \in {"view", "viewfresh", "viewlate", "viewpost", "viewcustom", "viewquery"} -> ViewSeq(ds)
       \* ranges with one end exactly on the emitted key [tag, "J1", null]
       [] kind = "viewxend" -> SelSeq(ViewSeq(ds), LAMBDA r : CmpPivot(r) < 0)
       [] kind = "viewiend" -> SelSeq(ViewSeq(ds), LAMBDA r : CmpPivot(r) <= 0)
@@ -402,7 +402,7 @@ Call(e) ==
         \* the views queried after the feed flush (whose markers are writes to every collection): one queried after every
         \* step, one only every few steps (its index catches up over several writes at once), a freshly built one: the same rows
         fFresh2 ==
-            Cardinality({i \in 1..Len(e.aux) : e.aux[i].kind \in {"viewfresh", "viewlate", "viewpost"}
+            Cardinality({i \in 1..Len(e.aux) : e.aux[i].kind \in {"viewfresh", "viewlate", "viewpost", "viewcustom", "viewquery"}
                 /\ ~(\E k2 \in Keys : BadJson(newDocs[e.aux[i].c][k2]))
                 /\ (e.aux[i].err # "" \/ RowsOf(e.aux[i].rows) # ExpectedAuxV(e.aux[i].kind, newDocs[e.aux[i].c], "A"))
                 \* the same query was right before the flush markers were written (one to this collection, the others to
